@@ -28,6 +28,7 @@ def observe(prj, before_hash, vcs):
     """implementation trace as event names, from the fake VCS log + hooks log"""
     trace = []
     wrote = False
+    observe.push_argvs = []
     for e in prj.vcs_log():
         k = e["key"]
         h = e.get("watch")
@@ -46,6 +47,7 @@ def observe(prj, before_hash, vcs):
             trace.append("ETagAnnotated" if "--message" in e["argv"] else "ETagLight")
         elif k == "push":
             argv = e["argv"]
+            observe.push_argvs.append(list(argv))
             has_tag = ("--follow-tags" in argv) if vcs == "fakegit" else (len(argv) > 1)
             trace.append("EPushTag" if has_tag else "EPush")
         elif k == "hook":
@@ -171,6 +173,10 @@ def properties(rep, cfg, opts, world, vcs, code, trace, hook_lines, args, old_ve
             rep.violation("exit 0 with committing enabled and a usable VCS, but no commit was made", input=inp, **{"class": "enabled-step-missing"})
         elif eff_tag and not any(t in trace for t in ("ETagAnnotated", "ETagLight")):
             rep.violation("exit 0 with tagging enabled, but no tag was made", input=inp, **{"class": "enabled-step-missing"})
+    # a push that follows a tag names that tag (a lightweight tag is not sent by --follow-tags alone)
+    if vcs == "fakegit" and any(t in trace for t in ("ETagAnnotated", "ETagLight")) and "EPushTag" in trace:
+        if not any(new_version in a for a in getattr(observe, "push_argvs", [])):
+            rep.violation("the push after tagging does not name the new tag %s" % new_version, input=dict(inp, push=getattr(observe, "push_argvs", [])), **{"class": "push-without-tag-name"})
     contradictory = (ocommit is False and (otag or opush)) or (not eff_commit and (otag or opush))
     # the dirty check is the first step: when it fails (a pattern file has uncommitted changes; or anything has and --allow-dirty is not given)
     # nothing after it happens
